@@ -1,5 +1,5 @@
 # replay of a bounded stand-in violation (C16): re-run native/c16_states.py
 import sys
-print('n=2 pure=False cat: quad_expectation(0,0.8) = [-0.03272, 1.14995] on bosonic, [-0.03272, 2.5105] on fock')
+print('fock n=2 pure=True gaussian: parity_expectation([1]) = 0.67294 but sum_n (-1)^n p(n) from reduced_dm = 0.99815')
 print('REPLAY-VIOLATION')
 sys.exit(1)
